@@ -3016,6 +3016,129 @@ def check_advance_matches_delimiter(mir, fname='tokenize_block_or_var'):
     return res
 
 
+def check_raw_block_trimming(mir):
+    """handle_raw_tag: what is removed from the front of a raw block's content, with the whitespace marker of
+    `{% raw %}` and trim_blocks SYMBOLIC: marker `-` -> all leading whitespace (trim_start); no marker and trim_blocks
+    -> at most one CR and then at most one LF, each removed only behind its own starts_with test; otherwise nothing"""
+    text = function_text(mir, r'^fn lexer::<impl [^>]*>::handle_raw_tag\(')
+    if text is None:
+        return dict(function='Tokenizer::handle_raw_tag', verdict='unknown', conflict='handle_raw_tag not found in the MIR')
+    fn = parse_function(text)
+    src = open(os.path.join(REPO, 'minijinja', 'src', 'compiler', 'lexer.rs'), encoding='utf-8').read()
+    m = re.search(r'enum Whitespace \{(.*?)\n\}', src, re.S)
+    modes = re.findall(r'^\s{4}([A-Z]\w*)', re.sub(r'\s*///[^\n]*', '', m.group(1)), re.M) if m else []
+    if sorted(modes) != ['Default', 'Preserve', 'Remove']:
+        return dict(function='Tokenizer::handle_raw_tag', verdict='unknown', conflict='enum Whitespace not as expected: %s' % modes)
+    start = None
+    for bid, blk in fn['blocks'].items():
+        if not blk['cleanup'] and any(re.match(r'_\d+ = discriminant\(_2\);', st) for st in blk['stmts']) and blk['term'].startswith('switchInt'):
+            start = bid
+            break
+    if start is None:
+        return dict(function='Tokenizer::handle_raw_tag', verdict='unknown', conflict='the dispatch on the start marker was not found')
+    sw_results = {}
+    for blk in fn['blocks'].values():
+        dst, callee = call_of(blk['term'])
+        mm = callee and re.match(r"core::str::<impl str>::starts_with::<char>\((?:move|copy) _\d+, const '(\\?.)'\)", callee)
+        if mm and dst:
+            sw_results[dst] = mm.group(1)
+    paths = []            # (mode value or None, trim value or None, tuple of ops)
+
+    def walk(bid, mode, trim, ops, pending, depth):
+        if depth > 40:
+            paths.append((mode, trim, ops + ('?too-long',)))
+            return
+        blk = fn['blocks'][bid]
+        trim_local = None
+        for st in blk['stmts']:
+            mm = re.match(r'(_\d+) = copy \(\(\(\*_1\)\.\d+: [\w:]*WhitespaceConfig\)\.\d+: bool\);', st)
+            if mm:
+                trim_local = mm.group(1)
+        term = blk['term']
+        dst, callee = call_of(term)
+        if callee:
+            if re.match(r'core::str::<impl str>::trim_start\(', callee):
+                ops = ops + ('trim_start',)
+            elif re.match(r'core::str::<impl str>::(trim\w*)', callee):
+                ops = ops + (re.match(r'core::str::<impl str>::(trim\w*)', callee).group(1),)
+            elif re.match(r'<str as Index<std::ops::RangeFrom<usize>>>::index\(', callee):
+                ops = ops + (('strip_after', pending),)
+                pending = None
+            nxt = [t_ for lab, t_ in successors(term) if lab == 'ok' and not fn['blocks'][t_]['cleanup']]
+            for t_ in nxt[:1]:
+                walk(t_, mode, trim, ops, pending, depth + 1)
+            return
+        mm = re.match(r'switchInt\((?:move|copy) (_\d+)\) -> \[(.*)\];', term)
+        if mm:
+            tg = [x.split(': ') for x in mm.group(2).split(', ')]
+            loc = mm.group(1)
+            is_mode = any(re.match(re.escape(loc) + r' = discriminant\(_2\);', st) for st in blk['stmts'])
+            if is_mode and bid == start:
+                for k, t_ in tg:
+                    if k != 'otherwise' and fn['blocks'][t_]['term'] != 'unreachable;':
+                        walk(t_, int(k), trim, ops, None, depth + 1)
+                return
+            if trim_local == loc or (trim is None and loc not in sw_results and bid != start and any('WhitespaceConfig' in st for st in blk['stmts'])):
+                for k, t_ in tg:
+                    walk(t_, mode, (k != '0'), ops, None, depth + 1)
+                return
+            if loc in sw_results:
+                for k, t_ in tg:
+                    walk(t_, mode, trim, ops, (sw_results[loc] if k != '0' else None), depth + 1)
+                return
+            # the dispatch on the END marker of `{% raw %}` (or anything else): the front of the content is done
+            paths.append((mode, trim, ops))
+            return
+        nxt = [t_ for lab, t_ in successors(term) if not fn['blocks'][t_]['cleanup']]
+        if not nxt:
+            paths.append((mode, trim, ops))
+        for t_ in nxt[:1]:
+            walk(t_, mode, trim, ops, pending, depth + 1)
+    walk(start, None, None, (), None, 0)
+    cr, lf = '\\r', '\\n'
+    spec = {}
+    for mi, mname in enumerate(modes):
+        for tb in (False, True):
+            if mname == 'Remove':
+                want = {('trim_start',)}
+            elif mname == 'Default' and tb:
+                want = {(), (('strip_after', cr),), (('strip_after', lf),), (('strip_after', cr), ('strip_after', lf))}
+            else:
+                want = {()}
+            spec[(mi, tb)] = frozenset(want)
+    impl = {}
+    for mi in range(len(modes)):
+        for tb in (False, True):
+            impl[(mi, tb)] = frozenset(ops for (m_, t_, ops) in paths if m_ == mi and (t_ is None or t_ == tb))
+    ids = {}
+
+    def sid(x):
+        return ids.setdefault(x, len(ids))
+    mz, tz = z3.Int('raw_start_marker'), z3.Bool('trim_blocks')
+    iexpr, sexpr = z3.IntVal(-1), z3.IntVal(-2)
+    for (mi, tb), v in impl.items():
+        iexpr = z3.If(z3.And(mz == mi, tz == tb), z3.IntVal(sid(v)), iexpr)
+    for (mi, tb), v in spec.items():
+        sexpr = z3.If(z3.And(mz == mi, tz == tb), z3.IntVal(sid(v)), sexpr)
+    s_ = z3.Solver()
+    s_.add(mz >= 0, mz < len(modes), iexpr != sexpr)
+    t0 = time.time()
+    r = s_.check()
+    res = dict(function='Tokenizer::handle_raw_tag', paths=len(paths), modes=modes, z3_s=round(time.time() - t0, 3))
+    if r == z3.unsat:
+        res.update(verdict='sat')
+    elif r == z3.sat:
+        md = s_.model()
+        mv = md.eval(mz, model_completion=True).as_long()
+        tv = z3.is_true(md.eval(tz, model_completion=True))
+        res.update(verdict='unsat', marker=modes[mv], trim_blocks=tv,
+                   conflict='with the raw tag\'s start marker %s and trim_blocks=%s the front of the raw content is treated as %s, the rule says %s' % (
+                       modes[mv], tv, sorted(map(str, impl[(mv, tv)])), sorted(map(str, spec[(mv, tv)]))))
+    else:
+        res.update(verdict=str(r))
+    return res
+
+
 def run_delimiters(prop, tier, seed):
     t0 = time.time()
     ev = dict(engine='M', violations=[], known_hits=[], problems=[], coverage={})
@@ -3024,35 +3147,48 @@ def run_delimiters(prop, tier, seed):
     except MirError as e:
         ev['problems'].append('engine M: %s' % e)
         return ev
-    res = check_advance_matches_delimiter(mir)
+    results = [dict(check_advance_matches_delimiter(mir), part='delimiters'), dict(check_raw_block_trimming(mir), part='raw')]
     err = build_tool('render')
     if err:
         ev['problems'].append('engine M: render tool did not build')
         return ev
     # delimiters of pairwise different lengths; every end delimiter with and without a whitespace-control sign
     syn = dict(block=['<%%', '%%>'], variable=['${', '}'], comment=['<#--', '#>'])
-    cases = [('A${ x }B', 'A1B'), ('A${ x -}  B', 'A1B'), ('A${ x +}  B', 'A1  B'), ('A<%% if x %%>T<%% endif %%>B', 'ATB'),
-             ('A<%% if x -%%>  T<%% endif +%%>  B', 'AT  B'), ('A  <%%- if x %%>T<%%- endif %%>B', 'ATB'), ('A<#-- c #>B${ x }', 'AB1'),
-             ('${ x -}<%% if x -%%> ${ x }<%% endif %%>', '11')]
-    reqs = [dict(src=s_, ctx=dict(x=1), syntax=syn) for s_, _ in cases]
-    inp = '\n'.join(json.dumps(q) for q in reqs) + '\n'
+    cases = [('delimiters', dict(src=s_, ctx=dict(x=1), syntax=syn), w) for s_, w in [
+        ('A${ x }B', 'A1B'), ('A${ x -}  B', 'A1B'), ('A${ x +}  B', 'A1  B'), ('A<%% if x %%>T<%% endif %%>B', 'ATB'),
+        ('A<%% if x -%%>  T<%% endif +%%>  B', 'AT  B'), ('A  <%%- if x %%>T<%%- endif %%>B', 'ATB'), ('A<#-- c #>B${ x }', 'AB1'),
+        ('${ x -}<%% if x -%%> ${ x }<%% endif %%>', '11')]]
+    # raw blocks: with trim_blocks exactly one line ending goes, with `-` all leading whitespace, otherwise nothing
+    for content in ('\n\nA', '\r\n\r\nA', '\r\rA', '\n A', ' \nA', 'A'):
+        one = content[2:] if content.startswith('\r\n') else (content[1:] if content[:1] in '\r\n' else content)
+        cases.append(('raw', dict(src='[{% raw %}' + content + '{% endraw %}]', ctx={}, trim_blocks=True), '[' + one + ']'))
+        cases.append(('raw', dict(src='[{% raw %}' + content + '{% endraw %}]', ctx={}, trim_blocks=False), '[' + content + ']'))
+        cases.append(('raw', dict(src='[{% raw -%}' + content + '{% endraw %}]', ctx={}, trim_blocks=True), '[' + content.lstrip() + ']'))
+        cases.append(('raw', dict(src='[{% raw +%}' + content + '{% endraw %}]', ctx={}, trim_blocks=True), '[' + content + ']'))
+    inp = '\n'.join(json.dumps(q) for _, q, _ in cases) + '\n'
     p = subprocess.run([os.path.join(BUILD, 'native', 'debug', 'render')], input=inp, stdout=subprocess.PIPE, stderr=subprocess.PIPE, text=True, timeout=120)
     outs = [json.loads(l) for l in p.stdout.split('\n') if l.strip()]
-    bad = ['%s renders %r, expected %r' % (c[0], o.get('ok', o), c[1]) for c, o in zip(cases, outs) if o.get('ok') != c[1]]
-    if res['verdict'] == 'unsat':
-        if bad:
-            rp = os.path.join(nativelib.replay_dir(), '%s-M-delimiters.json' % prop)
-            json.dump(dict(engine='M', kind='safesrc', property=prop, mir_finding=res, requests=[[q, c[1]] for q, c in zip(reqs, cases)],
-                           how='bin/check %s --replay %s' % (prop, rp)), open(rp, 'w'), indent=1)
-            ev['violations'].append(dict(replay=rp, failed=[dict(desc='%s; natively (block <%%%% %%%%>, variable ${ }): %s' % (res['conflict'], bad[0][:200]), loc='minijinja/src/compiler/lexer.rs (MIR)')]))
-        else:
-            ev['problems'].append('engine M: %s, but every template of the custom-delimiter grid renders as specified' % res['conflict'])
-    elif res['verdict'] != 'sat':
-        ev['problems'].append('engine M: delimiters: %s %s' % (res['verdict'], res.get('conflict') or ''))
-    elif bad:
-        ev['problems'].append('engine M: custom delimiters: %s although every advance matches the delimiter found' % bad[0][:200])
-    log('[%s] engine M (end delimiters): %s (%d advances by a delimiter length); native: %d templates, %d wrong' % (prop, res['verdict'], len(res.get('delimiter_advances', [])), len(outs), len(bad)))
-    ev['coverage'] = dict(queries=1, results=[res], native_scenarios=len(outs), native_scenarios_failing=len(bad), check='advance_matches_delimiter')
+    bad = {}
+    for (part, q, want), o in zip(cases, outs):
+        if o.get('ok') != want:
+            bad.setdefault(part, []).append('%r (trim_blocks=%s) renders %r, expected %r' % (q['src'], q.get('trim_blocks'), o.get('ok', o), want))
+    for res in results:
+        part = res['part']
+        if res['verdict'] == 'unsat':
+            if part in bad:
+                rp = os.path.join(nativelib.replay_dir(), '%s-M-lexer-%s.json' % (prop, part))
+                json.dump(dict(engine='M', kind='safesrc', property=prop, mir_finding=res, requests=[[q, w] for pt, q, w in cases if pt == part],
+                               how='bin/check %s --replay %s' % (prop, rp)), open(rp, 'w'), indent=1)
+                ev['violations'].append(dict(replay=rp, failed=[dict(desc='%s; natively: %s' % (res['conflict'], bad[part][0][:220]), loc='minijinja/src/compiler/lexer.rs %s (MIR)' % res['function'])]))
+            else:
+                ev['problems'].append('engine M: %s, but every template of the native grid renders as specified' % res['conflict'])
+        elif res['verdict'] != 'sat':
+            ev['problems'].append('engine M: lexer (%s): %s %s' % (part, res['verdict'], res.get('conflict') or ''))
+        elif part in bad:
+            ev['problems'].append('engine M: lexer (%s): %s although the MIR check holds' % (part, bad[part][0][:200]))
+    log('[%s] engine M (lexer: end delimiters, raw blocks): %s; native: %d templates, %d wrong' % (
+        prop, ' '.join('%s=%s' % (r_['part'], r_['verdict']) for r_ in results), len(outs), sum(len(v) for v in bad.values())))
+    ev['coverage'] = dict(queries=len(results), results=results, native_scenarios=len(outs), native_scenarios_failing=sum(len(v) for v in bad.values()), check='lexer_delimiters_and_raw_blocks')
     ev['wall_s'] = round(time.time() - t0, 1)
     return ev
 
